@@ -11,4 +11,5 @@ CONSTANTS
   MaxMsgs = 3
   Depth = 6
   ProbesLast = TRUE
+  Extras = {}
 INVARIANT Emit
